@@ -215,3 +215,19 @@ def justified(facts, fnode, accept, depth=2):
             if defs and all(justified(split_conj(d.value, True), fnode, accept, depth - 1) for d in defs):
                 return True
     return False
+
+
+def name_defs(fnode, name):
+    """[(value expression, statement)] for every binding of a local name by assignment, element-wise through `a, b = (x, y)`"""
+    out = []
+    for n in walk_local(fnode):
+        if not isinstance(n, ast.Assign):
+            continue
+        for t in n.targets:
+            if isinstance(t, ast.Name) and t.id == name:
+                out.append((n.value, n))
+            elif isinstance(t, (ast.Tuple, ast.List)) and isinstance(n.value, (ast.Tuple, ast.List)) and len(t.elts) == len(n.value.elts):
+                for a, b in zip(t.elts, n.value.elts):
+                    if isinstance(a, ast.Name) and a.id == name:
+                        out.append((b, n))
+    return out
